@@ -296,10 +296,18 @@ def gen_khist(draw, tier="quick"):
     case["cond_val"] = [0.3 * i if isinstance(v, str) or v != v else v for i, v in enumerate(case["cond_val"])]
     n = len(case["cond_val"])
     ops = []
-    kinds = ["anis", "angles", "len_scale", "var", "new_values", "new_positions", "refresh_only", "call"]
-    for _ in range(draw(st.integers(1, 5))):
+    kinds = ["anis", "angles", "len_scale", "var", "new_values", "new_positions", "refresh_only", "call", "call"]
+    if cfg["variant"] == "simple":
+        kinds += ["mean", "mean"]
+    for _ in range(draw(st.integers(1, 6))):
         k = draw(st.sampled_from(kinds))
         op = {"op": k}
+        if k == "call":
+            op["return_var"] = draw(st.booleans())
+        if k == "mean":
+            # a new constant mean; the conditions are re-read on every call, with or without the refresh
+            op["v"] = draw(st.floats(-2.0, 3.0))
+            op["refresh"] = draw(st.booleans())
         if k in ("anis", "len_scale", "var"):
             op["factor"] = draw(st.one_of(logfloat(1.3, 3.0), logfloat(0.3, 0.8)))
             op["idx"] = draw(st.integers(0, 2))
@@ -311,7 +319,12 @@ def gen_khist(draw, tier="quick"):
         elif k == "new_positions":
             op["shift"] = draw(st.lists(st.floats(-0.4, 0.4), min_size=fdim, max_size=fdim))
         ops.append(op)
-    ops.append({"op": "call"})
+    last = {"op": "call", "return_var": draw(st.booleans())}
+    if cfg["variant"] == "simple" and draw(st.integers(0, 2)) == 0:
+        # motif: the same kind of call before and after a property change
+        ops.append(dict(last))
+        ops.append({"op": "mean", "v": draw(st.floats(-2.0, 3.0)), "refresh": draw(st.booleans())})
+    ops.append(last)
     case["ops"] = ops
     case["fit"] = draw(st.sampled_from([False, False, True]))
     if case["fit"] and fdim > 1 and all(a == 1.0 for a in spec["anis"]) and not spec.get("temporal"):
@@ -381,6 +394,13 @@ def check_khist(case, rec):
                     changed += 1
                 elif o == "refresh_only":
                     k.set_condition()
+                elif o == "mean":
+                    k.mean = op["v"]
+                    cfg["mean"], cfg["mean_val"] = "const", float(op["v"])
+                    rec.label("mean_reassigned_" + ("refresh" if op["refresh"] else "no_refresh"))
+                    if op["refresh"]:
+                        k.set_condition()
+                    changed += 1
                 elif o == "call":
                     cur = kc.spec_from_model(spec, k.model)
                     c2 = dict(case, spec=cur, cfg=cfg, cond_pos=cond_pos.tolist(), cond_val=cond_val.tolist())
@@ -388,7 +408,11 @@ def check_khist(case, rec):
                     if not np.isfinite(ref["cond"]) or ref["cond"] > 1e9 or not np.all(np.isfinite(ref["field"])):
                         rec.exclude("cond>1e9")
                         return
-                    f, v = k(pos.copy())
+                    if op.get("return_var", True):
+                        f, v = k(pos.copy())
+                    else:
+                        f, v = k(pos.copy(), return_var=False), ref["var"]
+                        rec.label("call_without_variance")
                     sc = max(1.0, float(np.max(np.abs(cond_val))), float(np.max(np.abs(ref["field"]))))
                     t = kc.tol(c2, ref["cond"], sc) * 10
                     tv = kc.tol(c2, ref["cond"], max(cur["var"] + cur["nugget"], float(np.max(np.abs(ref["var"]))))) * 10
